@@ -174,18 +174,19 @@ func (d *Decimal) setString(c *Context, s string) (Condition, error) {
 		return 0, nil
 	}
 
-	exps := make([]int64, 0, 2)
+	// exp is the written exponent less the number of fraction digits. Only
+	// this sum, the exponent of the parsed value, is subject to the limits.
+	var exp int64
 	if i := strings.IndexByte(s, 'e'); i >= 0 {
-		exp, err := strconv.ParseInt(s[i+1:], 10, 32)
+		e, err := strconv.ParseInt(s[i+1:], 10, 32)
 		if err != nil {
 			return 0, fmt.Errorf("parse exponent: %s: %w", s[i+1:], err)
 		}
-		exps = append(exps, exp)
+		exp = e
 		s = s[:i]
 	}
 	if i := strings.IndexByte(s, '.'); i >= 0 {
-		exp := int64(len(s) - i - 1)
-		exps = append(exps, -exp)
+		exp -= int64(len(s) - i - 1)
 		s = s[:i] + s[i+1:]
 	}
 	// The integer parsers also accept a sign, which the numeric-string
@@ -198,7 +199,7 @@ func (d *Decimal) setString(c *Context, s string) (Condition, error) {
 	}
 	// No parse errors, can now flag as finite.
 	d.Form = Finite
-	return c.goError(d.setExponent(c, unknownNumDigits, 0, exps...))
+	return c.goError(d.setExponent(c, unknownNumDigits, 0, exp))
 }
 
 // NewFromString creates a new decimal from s. It has no restrictions on
